@@ -34,4 +34,7 @@ class AbsmaxOptimizer(SymmetricOptimizer):
             dim = list(range(1, base.ndim)) if (axis == 0) else list(range(0, base.ndim - 1))
             rmax = torch.amax(torch.abs(base), dim=dim, keepdim=True)
         qmax = 2 ** (bits - 1) - 1
-        return rmax / qmax
+        scale = rmax / qmax
+        # An all-zero row yields a zero scale, and 0 / 0 = NaN codes for float8 qtypes: use the smallest positive number instead
+        info = torch.finfo(scale.dtype)
+        return torch.clamp(scale, min=info.smallest_normal * info.eps)
